@@ -93,6 +93,17 @@ def install_watchdog(tick=15.0, first=12, second=4):
     _watch['installed'] = True
 
 
+def stop_watchdog():
+    """Disarm the timer before the interpreter shuts down (Python restores the default SIGALRM action while worker
+    threads may still be finishing; a tick in that window would kill the process with status 142)."""
+    import signal
+    import threading
+    if _watch.get('installed') and threading.current_thread() is threading.main_thread():
+        signal.setitimer(signal.ITIMER_REAL, 0)
+        signal.signal(signal.SIGALRM, signal.SIG_IGN)
+        _watch['installed'] = False
+
+
 def import_kyupy():
     """Import kyupy from the current working tree of the repository (never a stale copy)."""
     install_watchdog()
@@ -547,4 +558,6 @@ def run_check(fn, pid):
             traceback.print_exc()
             print('MACHINERY-FAILURE property=%s unexpected exception in the harness' % pid)
             rc = 2
+    stop_watchdog()
+    sys.stdout.flush()
     sys.exit(rc)
